@@ -268,6 +268,7 @@ fn run(cfg: &Cfg, rep: &mut Report) {
             return;
         }
         rep.count("rem_euclid_checks");
+        rep.sample(|| Json::obj().set("backend", BACKEND).set("x", f32s(x)).set("m", f32s(m)).set("rem_euclid", f32s(r)));
     });
 
     // ---- approximate functions
@@ -332,6 +333,9 @@ fn run(cfg: &Cfg, rep: &mut Report) {
             }
         }
         rep.count("approx_points");
+        if i < 3 {
+            rep.sample(|| Json::obj().set("backend", BACKEND).set("sweep_parameter_u", u).set("functions", "every function the backend exports, evaluated at the point derived from u"));
+        }
     });
 
     // ---- consequences for the library code built on the helpers
